@@ -102,7 +102,7 @@ func first(ps clip.Paths64) clip.Path64 {
 	return ps[0]
 }
 
-var totalFns = []string{"BooleanOpPaths64", "engine64", "engine64-open", "tree64", "BooleanOpPathsD", "treeD", "engineD-open",
+var totalFns = []string{"BooleanOpPaths64", "engine64", "engine64-open", "engine64-open-glued", "tree64", "BooleanOpPathsD", "treeD", "engineD-open",
 	"InflatePaths64", "InflatePathsD", "offset-object", "MinkowskiSum64", "MinkowskiDiff64", "MinkowskiSumD", "MinkowskiDiffD",
 	"RectClipPaths64", "RectClipPath64", "RectClipLinesPaths64", "RectClipLinesPath64", "RectClipPathsD", "RectClipLinesPathsD",
 	"TrimCollinear64", "TrimCollinearD", "SimplifyPath64", "SimplifyPaths64", "SimplifyPathD", "StripDuplicates",
@@ -170,6 +170,12 @@ func runTotal(c totalCase) (fault string) {
 			var sol clip.Paths64
 			mustTrue(e.Execute(ct, fr, &sol), "Execute")
 			mustTrue(e.Execute(ct, fr, &sol), "second Execute")
+		case "engine64-open-glued":
+			e := clip.NewClipper64()
+			e.AddPaths(c.A, clip.Subject, true)
+			e.AddPaths(c.B, clip.Subject, false)
+			var sc, so clip.Paths64
+			mustTrue(e.ExecuteOC(ct, fr, &sc, &so), "ExecuteOC")
 		case "engine64-open":
 			e := clip.NewClipper64()
 			e.AddPaths(c.A, clip.Subject, true)
@@ -310,10 +316,26 @@ func genTotalCase(r *Rng) totalCase {
 		// collinear edges, either orientation): the touching configurations in which output rings
 		// are created, joined and owned in unusual orders — the PolyTree owner search, the join
 		// and split bookkeeping are exercised far more often than by independent random polygons
-		c.Fn = []string{"tree64", "tree64", "treeD", "engine64", "BooleanOpPaths64"}[r.Intn(5)]
+		c.Fn = []string{"tree64", "tree64", "treeD", "engine64", "BooleanOpPaths64", "engine64-open-glued", "engine64-open-glued", "engine64-open-glued"}[r.Intn(8)]
 		c.A, c.B = genGlued(r), nil
 		if r.Bool() {
 			c.B = genGlued(r)
+		}
+		if c.Fn == "engine64-open-glued" {
+			// open polylines crossing two families of glued polygons (all closed subjects): open edges
+			// meet joined (coincident) closed edges at shared vertices
+			c.B = append(genGlued(r), genGlued(r)...)
+			c.A = nil
+			for k := r.Range(1, 2); k > 0; k-- {
+				p := clip.Path64{}
+				for n := r.Range(2, 3); len(p) < n; {
+					p = append(p, P{X: int64(r.Range(-2, 12)), Y: int64(r.Range(-2, 12))})
+				}
+				c.A = append(c.A, p)
+			}
+			if fr > 1 && fr < 4 {
+				fr = r.Intn(2)
+			}
 		}
 		if ct == 0 {
 			ct = r.Range(1, 4)
@@ -564,7 +586,7 @@ func init() {
 			c := genTotalCase(NewRng(ctx.Seed, "c03", i))
 			return &Violation{Property: "C03", Kind: "fault:" + c.Fn, Signature: c03Sig(c), Detail: c.Fn + ": " + how, Case: c, Stream: "c03", Index: i, Seed: ctx.Seed}
 		}},
-		"every exported operation on degenerate / adversarial inputs (nil and empty sets, empty, 1- and 2-point paths, repeated points, all-collinear, all-horizontal, zero-area, coincident polygons, empty or inverted rectangles, zero/negative/huge deltas, out-of-range enum values, NoClip; 42 % of the cases are PolyTree / engine calls on 2-3 triangles and quadrilaterals glued along part of a common lattice line), each under recover, a watchdog and an address-space limit in a child process; Execute* must return true; non-trivial = at least one path with ≥ 1 point reaches the callee; distinct by input",
+		"every exported operation on degenerate / adversarial inputs (nil and empty sets, empty, 1- and 2-point paths, repeated points, all-collinear, all-horizontal, zero-area, coincident polygons, empty or inverted rectangles, zero/negative/huge deltas, out-of-range enum values, NoClip; 42 % of the cases are PolyTree / engine calls on 2-3 triangles and quadrilaterals glued along part of a common lattice line, a third of them with open polylines crossing two such families), each under recover, a watchdog and an address-space limit in a child process; Execute* must return true; non-trivial = at least one path with ≥ 1 point reaches the callee; distinct by input",
 		100000, 6000000)
 	replays["c03-search"] = func(ctx *Ctx, o *Oracle, raw json.RawMessage) *Violation {
 		var c totalCase
